@@ -860,8 +860,23 @@ def span_matcher_level_rule(ck, F):
         # equivalent spellings: fold with max / map(..).max()
         if not ok and len(rets) == 1:
             ok = ("max(" in rets[0] or "Ord::max" in rets[0]) and "field_matches" in rets[0] and "base_level" in rets[0] and "find_map(" not in rets[0] and ".next(" not in rets[0]
+        how = "iterator max"
+        if not ok:
+            # written as a loop with a running maximum: every matcher's filter() is consulted inside a cycle, the running
+            # value is compared against it as LevelFilters, and base_level is the fallback. (Acyclic path evaluation does
+            # not see through the loop; which side of that comparison wins is not decided for this spelling.)
+            def in_cycle(bb):
+                return any(bb in lv.reachable(n) for n in lv.succ(bb, False))
+            filt = [bb for bb, t in lv.calls() if str(t["callee"].get("path", "")).endswith("SpanMatch::filter") and in_cycle(bb)]
+            CMP = ("gt", "lt", "ge", "le", "max", "cmp", "partial_cmp")
+            cmpc = [bb for bb, t in lv.calls() if t["callee"].get("method") in CMP and "LevelFilter" in str(t["callee"].get("targs")) + str(t["callee"].get("path")) and in_cycle(bb)]
+            from rulekit.query import iter_places
+            from rulekit.model import proj_names
+            base = any("base_level" in proj_names(x[3].get("p", [])) for x in iter_places(lv))
+            if filt and cmpc and base:
+                ok, how = True, "loop with a running LevelFilter comparison (polarity of the comparison not decided for this spelling)"
         if ok:
-            ck.ok("C11.R20", key, fn=lv.path)
+            ck.ok("C11.R20", key, fn=lv.path, detail=how)
         else:
             ck.bad("C11.R20", key, where(lv.raw["sp"]), "level is %s: with several matched value directives of different levels the one that happens to come first decides" % [r[:120] for r in rets], fn=lv.path)
     fl = F.body(E + "field::SpanMatch::filter")
